@@ -83,6 +83,9 @@ func execGuard(e Engine, tr *Trace, x *X) {
 		}
 	}()
 	e.Exec(tr, x)
+	if x.Viol != nil && x.Nondet {
+		x.Viol.Nondet = true
+	}
 }
 
 func trimStack(b []byte) string {
